@@ -60,6 +60,23 @@ Proof.
     rewrite N.shiftr_shiftr. f_equal. lia.
 Qed.
 
+(* a value below 2^(8k) written on L >= k bytes: k significant bytes and L-k zero bytes *)
+Lemma N_to_le_wide_gen k L x : k <= L -> (x < 2 ^ (8 * N.of_nat k))%N ->
+  N_to_le L x = N_to_le k x ++ zeros (L - k).
+Proof.
+  intros HL Hx. replace L with (k + (L - k)) at 1 by lia. rewrite N_to_le_app.
+  f_equal. replace (N.shiftr x (8 * N.of_nat k)) with 0%N; [apply N_to_le_zero|].
+  symmetry. destruct (N.eq_dec x 0) as [->|Hz]; [apply N.shiftr_0_l|].
+  apply N.shiftr_eq_0. apply N.log2_lt_pow2; [lia|]. exact Hx.
+Qed.
+
+Lemma N_to_be_wide_gen k L x : k <= L -> (x < 2 ^ (8 * N.of_nat k))%N ->
+  N_to_be L x = zeros (L - k) ++ N_to_be k x.
+Proof.
+  intros HL Hx. unfold N_to_be. rewrite (N_to_le_wide_gen k L x HL Hx), rev_app_distr. f_equal.
+  apply rev_zeros.
+Qed.
+
 (* a value below 2^64 written on L >= 8 bytes: 8 significant bytes and L-8 zero bytes *)
 Lemma N_to_le_wide L x : 8 <= L -> (x < 2 ^ 64)%N -> N_to_le L x = N_to_le 8 x ++ zeros (L - 8).
 Proof.
